@@ -449,6 +449,8 @@ PROPS['C02']['required_theorems'] += ['beta_sphere', 'sigma_sphere', 'newtonMap_
                                       'sphere_inverse_of_forward', 'sphere_forward_of_inverse', 'sphere_round_trip']
 PROPS['C04']['more_proof_modules'] = list(PROPS['C04'].get('more_proof_modules', [])) + ['GeodeVerif.Proofs.C04b']
 PROPS['C04']['required_theorems'] += ['sphere_loop', 'vincdir_sphere', 'vincdir_sphere_end_point']
+PROPS['C04']['more_proof_modules'] = list(PROPS['C04'].get('more_proof_modules', [])) + ['GeodeVerif.Proofs.C04c']
+PROPS['C04']['required_theorems'] += ['sphere_end_point_central_angle', 'vincdir_sphere_distance']
 PROPS['C05']['more_proof_modules'] = list(PROPS['C05'].get('more_proof_modules', [])) + ['GeodeVerif.Proofs.C05b']
 PROPS['C05']['required_theorems'] += ['sphere_loop_exits_first_pass', 'sphere_sigma_is_central_angle', 'vincinv_sphere']
 PROPS['C05']['more_proof_modules'] = list(PROPS['C05'].get('more_proof_modules', [])) + ['GeodeVerif.Proofs.C05c']
